@@ -2,6 +2,7 @@ import einx._src.tracer as tracer
 import numpy as np
 from collections import defaultdict
 import itertools
+import keyword
 from einx._src.util import pytree
 
 
@@ -601,7 +602,8 @@ def compile(object, return_code=False):
                 yield "".join(name)
             length += 1
 
-    names = names()
+    reserved_names = {name for names_ in name_hints.values() for name in names_}
+    names = (name for name in names() if not keyword.iskeyword(name) and name not in reserved_names)
     for group in groups:
         group_name_hints = [name_hints[id(var)] for var in group if id(var) in name_hints]
         group_name_hints = [name for names in group_name_hints for name in names]
